@@ -446,7 +446,7 @@ fn mutations(b: &Base, r: &mut Rng, budget: usize, exhaustive_bits: bool, out: &
     // gkr proof: present, with hostile lengths
     {
         let g = lay.get("gkr");
-        for (lbl, tail) in [("gkr:some-empty", vec![1u8, 1]), ("gkr:some-3", vec![1, 7, 9, 9, 9]), ("gkr:len=2^60", vec![1, 0, 0, 0, 0, 0, 0, 0, 0x10]), ("gkr:len=2^32", vec![1, 0, 0, 0, 0, 0, 1, 0, 0, 0]),
+        for (lbl, tail) in [("gkr:some-empty", vec![1u8, 1]), ("gkr:some-3", vec![1, 7, 9, 9, 9]), ("gkr:len=2^60", vec![1, 0, 0, 0, 0, 0, 0, 0, 0, 0x10]), ("gkr:len=2^32", vec![1, 0, 0, 0, 0, 0, 1, 0, 0, 0]),
                             ("gkr:len=65535", vec![1, 0xfc + 3, 0xff, 0x03]), ("gkr:tag=2", vec![2]), ("gkr:none+junk", vec![0, 0])] {
             let mut m = bytes[..g.start].to_vec(); m.extend_from_slice(&tail); out.push(vcase(b, lbl.into(), m));
         }
